@@ -96,36 +96,26 @@ theorem inputs_setNode (i : Nat) (op cl : Bytes) (ps : List Pre) :
   simp [Pre.inputs, Pre.inputsList, lit]
 
 theorem pre_dict_inv {i : Nat} {xs : List (Scalar × PyVal)} {p : Pre} (h : pre (.dict i xs) = .ok p) :
-    ∃ ps s, preItems xs = .ok ps ∧ pySorted (fun a b : Scalar × Pre => scalarLt a.1 b.1) ps = .ok s
-      ∧ p = .node i (lit HashLits.dictOpen :: mapContents s ++ [lit HashLits.dictClose]) := by
+    ∃ ps, preItems xs = .ok ps
+      ∧ p = .node i (lit HashLits.dictOpen :: mapContents (sortItems ps) ++ [lit HashLits.dictClose]) := by
   simp only [pre] at h
   cases hps : preItems xs with
   | error e => rw [hps] at h; cases h
   | ok ps =>
     rw [hps] at h
-    simp only [except_bind_ok] at h
-    cases hs : pySorted (fun a b : Scalar × Pre => scalarLt a.1 b.1) ps with
-    | error e => rw [hs] at h; cases h
-    | ok s =>
-      rw [hs] at h
-      simp only [except_bind_ok, except_pure, Except.ok.injEq] at h
-      exact ⟨ps, s, rfl, hs, h.symm⟩
+    simp only [except_bind_ok, except_pure, Except.ok.injEq] at h
+    exact ⟨ps, rfl, h.symm⟩
 
 theorem pre_obj_inv {i : Nat} {c : Bytes} {xs : List (Scalar × PyVal)} {p : Pre} (h : pre (.obj i c xs) = .ok p) :
-    ∃ ps s, preItems xs = .ok ps ∧ pySorted (fun a b : Scalar × Pre => scalarLt a.1 b.1) ps = .ok s
-      ∧ p = .node i (lit (c ++ HashLits.objOpen) :: mapContents s ++ [lit HashLits.objClose]) := by
+    ∃ ps, preItems xs = .ok ps
+      ∧ p = .node i (lit (c ++ HashLits.objOpen) :: mapContents (sortItems ps) ++ [lit HashLits.objClose]) := by
   simp only [pre] at h
   cases hps : preItems xs with
   | error e => rw [hps] at h; cases h
   | ok ps =>
     rw [hps] at h
-    simp only [except_bind_ok] at h
-    cases hs : pySorted (fun a b : Scalar × Pre => scalarLt a.1 b.1) ps with
-    | error e => rw [hs] at h; cases h
-    | ok s =>
-      rw [hs] at h
-      simp only [except_bind_ok, except_pure, Except.ok.injEq] at h
-      exact ⟨ps, s, rfl, hs, h.symm⟩
+    simp only [except_bind_ok, except_pure, Except.ok.injEq] at h
+    exact ⟨ps, rfl, h.symm⟩
 
 theorem pre_func_inv {i : Nat} {b : FuncBody} {code : List PyVal} {c g : List (Scalar × PyVal)} {p : Pre}
     (h : pre (.func i b code c g) = .ok p) :
@@ -148,8 +138,8 @@ theorem pre_isNode {v : PyVal} {p : Pre} (hg : inG0 v = true) (h : pre v = .ok p
   | ty t => simp only [pre, Except.ok.injEq] at h; exact ⟨_, _, h.symm⟩
   | seq i k xs => obtain ⟨ps, _, rfl⟩ := pre_seq_inv h; exact ⟨_, _, rfl⟩
   | set i f xs => obtain ⟨ps, _, rfl⟩ := pre_set_inv h; exact ⟨_, _, rfl⟩
-  | dict i xs => obtain ⟨ps, s, _, _, rfl⟩ := pre_dict_inv h; exact ⟨_, _, rfl⟩
-  | obj i c xs => obtain ⟨ps, s, _, _, rfl⟩ := pre_obj_inv h; exact ⟨_, _, rfl⟩
+  | dict i xs => obtain ⟨ps, _, rfl⟩ := pre_dict_inv h; exact ⟨_, _, rfl⟩
+  | obj i c xs => obtain ⟨ps, _, rfl⟩ := pre_obj_inv h; exact ⟨_, _, rfl⟩
   | func i b code c g => obtain ⟨cs, _, rfl⟩ := pre_func_inv h; exact ⟨_, _, rfl⟩
   | tyFields i f o => simp [inG0] at hg
   | task i t f p => simp [inG0] at hg
